@@ -93,6 +93,14 @@ func runMonitor(prop string, m monitor, cs *caseSource, thorough bool) monitorRe
 
 func runMonitorC13(cs *caseSource) monitorResult {
 	res := monitorResult{Property: "C13", Failures: []failure{}}
+	// the empty string: Next is false at once, and the accessors go from the "before" to the "after" values
+	for _, ops := range []string{"PLNPLSUBWEDNNPLRPLNPL", "NPL", "RNRNPLD"} {
+		res.Evaluations++
+		if msg := monC13ops(nil, ops); msg != "" {
+			res.FailureCount++
+			res.Failures = append(res.Failures, failure{Property: "C13", Check: "monitor", InputHex: "-", Quoted: `""`, Ops: ops, Detail: msg, Index: -1, Kind: "empty"})
+		}
+	}
 	cs.each(func(i int, gc genCase) {
 		r := newRng(cs.seed, "C13ops", uint64(i))
 		ops := genIterOps(r)
